@@ -275,21 +275,30 @@ bool Directory::exists(const String& dir)
 bool Directory::create(const String& dir)
 {
   String parent = File::getDirectoryName(dir);
-  if(parent != "." && !Directory::exists(parent))
+  if(parent != "." && !parent.isEmpty() && !Directory::exists(parent))
   {
     if(!Directory::create(parent))
       return false;
   }
 #ifdef _WIN32
   if(!CreateDirectory(dir, NULL))
+  {
+    DWORD lastError = GetLastError();
+    if(Directory::exists(dir)) // already there (also "x/." and "x/..")
+      return true;
+    SetLastError(lastError);
+    return false;
+  }
 #else
   if(mkdir(dir, S_IRUSR | S_IWUSR | S_IXUSR | S_IRGRP | S_IXGRP | S_IROTH | S_IXOTH) != 0)
-#endif
   {
-    String basename = File::getBaseName(dir);
-    if(basename == "." || basename == "..")
+    int lastError = errno;
+    if(Directory::exists(dir)) // already there (also "x/." and "x/..")
       return true;
+    errno = lastError;
+    return false;
   }
+#endif
   return true;
 }
 
